@@ -406,6 +406,9 @@ def dominating_conds(node, pm):
                 alts = _split_cond(par['cond'], True)
                 if len(alts) == 1:
                     out += alts[0]
+        elif k == 'Let' and slot == 'els':
+            # the `else` block of `let PAT = init else { .. }` runs exactly when the pattern did not match
+            out.append(('nopat', [par['pat']], par['init']))
         elif k == 'Closure':
             out.append(('closure', par))
         elif 'pat' in par and 'body' in par and 'guard' in par and slot == 'body':
